@@ -1576,7 +1576,7 @@ func TestVerifC16Seq(t *testing.T) {
 	vc := verifStart(t, "C16", "seqdiff")
 	defer vc.Finish()
 
-	total := vc.N(2400, 160000)
+	total := vc.N(2400, 120000)
 	var st *verifC16Stores
 	defer func() {
 		if st != nil {
